@@ -15,6 +15,7 @@ import SlocModel.Driver.PathSpelling
 import SlocModel.Driver.Check
 import SlocModel.Driver.Concurrency
 import SlocModel.Driver.Glob
+import SlocModel.Driver.Scope
 open SlocModel.Driver
 
 def dispatch (line : String) : String :=
@@ -65,6 +66,7 @@ def dispatch (line : String) : String :=
       | "check-run" => handleCheckRun args
       | "conc-append" => handleConcAppend args
       | "glob" => handleGlob args
+      | "scope" => handleScope args
       | _ => some "bad-op"
     r.getD "bad-args"
   | [] => "bad-op"
